@@ -5,6 +5,8 @@ import (
 	"regexp"
 	"strconv"
 	"strings"
+	"sync/atomic"
+	"time"
 
 	"github.com/goplus/xgo/printer"
 	"github.com/goplus/xgo/token"
@@ -89,8 +91,26 @@ func emittedIDs(out []byte) []string {
 	return r
 }
 
-// runQueueImpl executes the case on the real printer.
-func runQueueImpl(size int, lines []int, gs []qgroup, ops []qop) (res string) {
+// hung is set when the code under test did not return in time: the goroutine cannot be
+// stopped (and a looping intersperseComments allocates without bound), so the run is cut
+// short and the process exits as soon as the results so far are written.
+var hung int32
+
+// runQueueImpl executes the case on the real printer (with a timeout: an endless loop of
+// intersperseComments is an outcome, "HANG").
+func runQueueImpl(size int, lines []int, gs []qgroup, ops []qop) string {
+	ch := make(chan string, 1)
+	go func() { ch <- runQueueImpl0(size, lines, gs, ops) }()
+	select {
+	case r := <-ch:
+		return r
+	case <-time.After(5 * time.Second):
+		atomic.StoreInt32(&hung, 1)
+		return "HANG"
+	}
+}
+
+func runQueueImpl0(size int, lines []int, gs []qgroup, ops []qop) (res string) {
 	defer func() {
 		if e := recover(); e != nil {
 			res = "PANIC " + fmt.Sprint(e)
@@ -200,7 +220,9 @@ func emitQueueCase(o *vh.Out, size int, lines []int, gs []qgroup, ops []qop) {
 	line := encodeQueue(size, gs, ops)
 	impl := runQueueImpl(size, lines, gs, ops)
 	n := countComments(gs)
-	if !queueOracle(impl, gs) {
+	if impl == "HANG" {
+		o.Oracle("queue-hang", line, "the real flush/intersperseComments did not return within 5s; lines="+fmt.Sprint(lines))
+	} else if !queueOracle(impl, gs) {
 		o.Oracle("queue-emission", line, impl+" lines="+fmt.Sprint(lines))
 	}
 	o.Count(fmt.Sprintf("queue_groups_%d", len(gs)))
@@ -310,6 +332,9 @@ func queueCases(f *vh.Flags, o *vh.Out) {
 	}
 	var rec func(gs []qgroup, prefix []qop, depth int)
 	rec = func(gs []qgroup, prefix []qop, depth int) {
+		if atomic.LoadInt32(&hung) != 0 {
+			return
+		}
 		emitQueueCase(o, 80, lines, gs, prefix)
 		if depth == L {
 			return
@@ -323,7 +348,7 @@ func queueCases(f *vh.Flags, o *vh.Out) {
 	}
 	o.Stats["queue_exhaustive_ops_upto"] = L
 	r := vh.NewRand(f.Seed)
-	for i := 0; i < f.N; i++ {
+	for i := 0; i < f.N && atomic.LoadInt32(&hung) == 0; i++ {
 		size, lines, gs, ops := randQueue(r.Fork(i))
 		emitQueueCase(o, size, lines, gs, ops)
 	}
